@@ -101,7 +101,7 @@ def make_harness(cname: str, cls: type, alts: dict[str, str], family: str):
         I.assume(z3.And(b0 >= 0, b0 <= 255))
         if family == "negative":
             I.assume(b0 == 0x7F)
-        elif family == "own":
+        elif family in ("own", "own-raw"):
             I.assume(b0 == sid + 0x40)
             if sid == 0x19:
                 # dict-backed DTC lists: bounded to <= 2 records (labelled on the unit)
@@ -109,8 +109,23 @@ def make_harness(cname: str, cls: type, alts: dict[str, str], family: str):
         else:
             I.assume(z3.And(b0 != 0x7F, b0 != sid + 0x40))
         I.ghost["D"] = None
+        q_sent: V = q
+        typed_spec = None
+        fam = family
+        if family == "own-raw":
+            # the same bytes sent as a raw request (send_raw, scanners): the statement classifies
+            # a reply against the request's *bytes*, so the outcome must be that of the typed
+            # request whenever the request parser types these bytes (C01 R-dyn)
+            try:
+                pre = I.call(S.UDSRequest.parse_dynamic, qpdu)
+            except PyExc:
+                return
+            typed_spec = isinstance(pre, VObj) and pre.cls is cls
+            I.ghost["parsed_request"] = None
+            q_sent = I.call(S.RawRequest, qpdu)
+            fam = "own"
         try:
-            r = I.call(H.parse_pdu, p, q)
+            r = I.call(H.parse_pdu, p, q_sent)
             outcome = "return"
             exc = None
         except PyExc as e:
@@ -121,6 +136,8 @@ def make_harness(cname: str, cls: type, alts: dict[str, str], family: str):
         D = I.ghost.get("D")
         preq = I.ghost.get("parsed_request")
         typed_req = isinstance(preq, VObj) and preq.cls is cls
+        if typed_spec is not None:
+            typed_req = typed_spec
         ln = models.seq_len(p.t)
         # ---- spec classification on this path
         neg_for: Any = z3.BoolVal(False)
@@ -132,11 +149,11 @@ def make_harness(cname: str, cls: type, alts: dict[str, str], family: str):
                 neg_for = I.getattr_v(D, "request_service_id").t == sid
         undecodable = z3.BoolVal(False)
         if D == "exc":
-            if family == "own":
+            if fam == "own":
                 undecodable = z3.BoolVal(True)
             elif family == "negative":
                 undecodable = z3.And(ln >= 2, p.t[1] == sid)
-        if family == "own" and isinstance(D, VObj) and typed_req:
+        if fam == "own" and isinstance(D, VObj) and typed_req:
             rs = iso.RESPONSES.get(D.cls.__name__)
             if rs is not None and not rs.get("raw") and not rs.get("negative"):
                 pos_genuine = echo(I, sid, q, D, False)
@@ -152,7 +169,7 @@ def make_harness(cname: str, cls: type, alts: dict[str, str], family: str):
             except PyExc as e:
                 I.fail("P-result-bytes(result.pdu-is-the-reply)", e.exc.cls.__name__)
             I.prove("P-trigger(result.trigger_request-is-the-request)",
-                    z3.BoolVal(r.fields.get("trigger_request") is q))
+                    z3.BoolVal(r.fields.get("trigger_request") is q_sent))
             # never an answer of another service
             if not (isinstance(r, VObj) and r.cls is S.NegativeResponse):
                 I.prove("P-service(accepted-positive-reply-has-sid+0x40)", b0 == sid + 0x40)
@@ -313,18 +330,20 @@ def build_units(tier: str) -> list[Unit]:
             chosen.append(a)
         for alts in chosen:
             tag = ",".join(f"{k}={v}" for k, v in alts.items())
-            for fam in ("negative", "own", "other"):
+            for fam in ("negative", "own", "own-raw", "other"):
                 units.append(Unit(f"{cname}/{tag}/{fam}", make_harness(cname, cls, alts, fam),
                                   setup=install_other if fam == "other" else install,
                                   bounded="replies 0x59 with <= 1 (quick) / 2 (thorough) DTC records"
-                                  if fam == "own" and iso.REQUESTS[cname]["sid"] == 0x19
-                                  else ""))
+                                  if fam in ("own", "own-raw")
+                                  and iso.REQUESTS[cname]["sid"] == 0x19 else ""))
     from .c02 import response_classes
     for rname, rcls in response_classes().items():
         if rcls.SERVICE_ID is None or rname in iso.INTERNAL_RESPONSE_BASES \
                 or rcls.SERVICE_ID == 0x7F:
             continue
         units.append(Unit(f"matches/{rname}", matches_foreign_harness(rname, rcls)))
+    from .c01 import purity_harness
+    units.append(Unit("purity/codec-functions", purity_harness))
     units.append(Unit("RawRequest/negative", raw_harness("negative"), setup=install))
     units.append(Unit("RawRequest/positive", raw_harness("positive"), setup=install))
     return units
@@ -459,10 +478,15 @@ def build_request(unit: str, model: dict) -> Any:
     alts = dict(x.split("=") for x in unit.split("/")[1].split(","))
     params = cs.param_alternatives(cls)
     pyargs = [None if alts[n] == "none" else py_of(model.get(n)) for n, _, _ in params]
+    if unit.endswith("/own-raw"):
+        return S.RawRequest(cls(*pyargs).pdu)
     return cls(*pyargs)
 
 
 def native_replay(unit: str, obligation: str, model: dict) -> tuple[bool, str]:
+    if unit.startswith("purity/"):
+        from .c01 import native_order_dependence
+        return native_order_dependence()
     if unit.startswith("registry/"):
         from gallia.services.uds.core import exception as E
         from gallia.services.uds.core.constants import UDSErrorCodes
@@ -487,7 +511,7 @@ def native_replay(unit: str, obligation: str, model: dict) -> tuple[bool, str]:
 def native_search(unit: str, obligation: str, seed: int) -> dict | None:
     S = service_module()
     rnd = random.Random(seed + 13)
-    if unit.startswith("registry/"):
+    if unit.startswith("registry/") or unit.startswith("purity/"):
         return {}
     cname = unit.split("/")[0]
     fam = unit.split("/")[-1]
@@ -515,7 +539,8 @@ def native_search(unit: str, obligation: str, seed: int) -> dict | None:
         n = rnd.choice([1, 2, 3, 3, 4, 5, 6, 8])
         b = bytearray(rnd.choice([0, 1, sid, sid + 0x40 & 0xFF, 0x7F, 0x10, 0x11, 0x22, 0x31,
                                   rnd.randrange(256)]) for _ in range(n))
-        b[0] = 0x7F if fam == "negative" else (sid + 0x40) & 0xFF if fam == "own" else b[0]
+        b[0] = 0x7F if fam == "negative" else (sid + 0x40) & 0xFF if fam in (
+            "own", "own-raw") else b[0]
         if len(b) > 1 and rnd.random() < 0.6:
             b[1] = sid if fam == "negative" else b[1]
         outcome, c = native_classify(q, bytes(b))
